@@ -50,7 +50,9 @@ func (e *env) handoutChecks() {
 	c := e.c
 	ctx, msg := []byte("handed out"), e.msgOf(77)
 	rt := refsr.TranscriptBytes(ctx, msg)
-	newSt := func() *sr25519.SigningTranscript { return sr25519.NewSigningContext(ctx).NewTranscriptBytes(msg) }
+	newSt := func() *sr25519.SigningTranscript {
+		return sr25519.NewSigningContext(lendAs("NewSigningContext", ctx)).NewTranscriptBytes(lendAs("SigningContext.NewTranscriptBytes", msg))
+	}
 	var cases []hoCase
 	add := func(name string, run func(w *mc.W, fail func(key, msg string))) {
 		cases = append(cases, hoCase{name, run})
@@ -89,17 +91,17 @@ func (e *env) handoutChecks() {
 			var kp sr25519.KeyPair
 			var sg sr25519.Signature
 			var ms sr25519.MiniSecretKey
-			must(sk.UnmarshalBinary(skA))
-			must(pk.UnmarshalBinary(pkA))
-			must(kp.UnmarshalBinary(kpA))
-			must(sg.UnmarshalBinary(sigA))
-			must(ms.UnmarshalBinary(A.mini))
+			must(sk.UnmarshalBinary(lend(skA)))
+			must(pk.UnmarshalBinary(lend(pkA)))
+			must(kp.UnmarshalBinary(lend(kpA)))
+			must(sg.UnmarshalBinary(lend(sigA)))
+			must(ms.UnmarshalBinary(lend(A.mini)))
 			got := [][]byte{mustMarshal(&sk), mustMarshal(&pk), mustMarshal(&kp), mustMarshal(&sg), mustMarshal(&ms)}
-			must(sk.UnmarshalBinary(skB))
-			must(pk.UnmarshalBinary(pkB))
-			must(kp.UnmarshalBinary(kpB))
-			must(sg.UnmarshalBinary(sigB))
-			must(ms.UnmarshalBinary(B.mini))
+			must(sk.UnmarshalBinary(lend(skB)))
+			must(pk.UnmarshalBinary(lend(pkB)))
+			must(kp.UnmarshalBinary(lend(kpB)))
+			must(sg.UnmarshalBinary(lend(sigB)))
+			must(ms.UnmarshalBinary(lend(B.mini)))
 			for i, want := range [][]byte{skA, pkA, kpA, sigA, A.mini} {
 				if !bytes.Equal(got[i], want) {
 					fail(reuseTypeName[[]int{ruSecretKey, ruPublicKey, ruKeyPair, ruSignature, ruMiniSecretKey}[i]]+".MarshalBinary/handed-out", "bytes returned by MarshalBinary changed when the object was decoded into again")
@@ -110,15 +112,15 @@ func (e *env) handoutChecks() {
 		// ---- (*SecretKey).PublicKey()
 		add("SecretKey.PublicKey()"+tag, func(w *mc.W, fail func(key, msg string)) {
 			var sk sr25519.SecretKey
-			must(sk.UnmarshalBinary(skA))
+			must(sk.UnmarshalBinary(lend(skA)))
 			p1 := sk.PublicKey()
-			must(p1.UnmarshalBinary(pkB)) // overwrite what was handed out
+			must(p1.UnmarshalBinary(lend(pkB))) // overwrite what was handed out
 			if !bytes.Equal(mustMarshal(sk.PublicKey()), pkA) || !bytes.Equal(mustMarshal(sk.KeyPair()), kpA) || !bytes.Equal(mustMarshal(&sk), skA) || !bytes.Equal(signs(sk.KeyPair()), sigA) {
 				fail("SecretKey.PublicKey/handed-out", "overwriting the *PublicKey returned by PublicKey() changed what the secret key derives afterwards")
 			}
 			p2 := sk.PublicKey()
-			must(sk.UnmarshalBinary(skB)) // re-set the source
-			s, _ := sr25519.NewSignatureFromBytes(sigA)
+			must(sk.UnmarshalBinary(lend(skB))) // re-set the source
+			s, _ := sr25519.NewSignatureFromBytes(lendAs("Signature.UnmarshalBinary", sigA))
 			if !bytes.Equal(mustMarshal(p2), pkA) || !p2.Verify(newSt(), s) {
 				fail("SecretKey.PublicKey/handed-out", "the *PublicKey returned earlier changed when the secret key was decoded into again")
 			}
@@ -127,27 +129,27 @@ func (e *env) handoutChecks() {
 		// ---- (*SecretKey).KeyPair()
 		add("SecretKey.KeyPair()"+tag, func(w *mc.W, fail func(key, msg string)) {
 			var sk sr25519.SecretKey
-			must(sk.UnmarshalBinary(skA))
+			must(sk.UnmarshalBinary(lend(skA)))
 			k1 := sk.KeyPair()
-			must(k1.UnmarshalBinary(kpB))
+			must(k1.UnmarshalBinary(lend(kpB)))
 			if !bytes.Equal(mustMarshal(&sk), skA) || !bytes.Equal(mustMarshal(sk.KeyPair()), kpA) || !bytes.Equal(mustMarshal(sk.PublicKey()), pkA) {
 				fail("SecretKey.KeyPair/handed-out", "overwriting the *KeyPair returned by KeyPair() changed the secret key")
 			}
 			k2 := sk.KeyPair()
-			must(sk.UnmarshalBinary(skB))
+			must(sk.UnmarshalBinary(lend(skB)))
 			if b := mustMarshal(k2); !bytes.Equal(b, kpA) {
-				_, derr := sr25519.NewKeyPairFromBytes(b)
-				e.pending(w, "SecretKey.KeyPair/shares-receiver", fmt.Sprintf("sk.UnmarshalBinary(A); kp := sk.KeyPair(); sk.UnmarshalBinary(B): the key pair returned earlier now marshals to secret(B) || public(A) (NewKeyPairFromBytes on it: %v) and its signatures verify under neither key - KeyPair() stores the receiver itself instead of a copy", derr))
+				_, derr := sr25519.NewKeyPairFromBytes(lendAs("KeyPair.UnmarshalBinary", b))
+				e.pending(w, "SecretKey.KeyPair/shares-receiver", fmt.Sprintf("sk.UnmarshalBinary(lend(A)); kp := sk.KeyPair(); sk.UnmarshalBinary(lend(B)): the key pair returned earlier now marshals to secret(B) || public(A) (NewKeyPairFromBytes on it: %v) and its signatures verify under neither key - KeyPair() stores the receiver itself instead of a copy", derr))
 			}
 		})
 
 		// ---- (*KeyPair).SecretKey() / PublicKey()
 		add("KeyPair.SecretKey() / PublicKey()"+tag, func(w *mc.W, fail func(key, msg string)) {
 			var kp sr25519.KeyPair
-			must(kp.UnmarshalBinary(kpA))
+			must(kp.UnmarshalBinary(lend(kpA)))
 			s, p := kp.SecretKey(), kp.PublicKey()
 			// direction 2 first (strict): re-set the key pair, what was handed out stays A
-			must(kp.UnmarshalBinary(kpB))
+			must(kp.UnmarshalBinary(lend(kpB)))
 			if !bytes.Equal(mustMarshal(s), skA) || !bytes.Equal(mustMarshal(p), pkA) {
 				fail("KeyPair.SecretKey/handed-out", "the halves returned earlier changed when the key pair was decoded into again")
 			}
@@ -156,32 +158,32 @@ func (e *env) handoutChecks() {
 			}
 			// direction 1: overwrite the halves handed out by a fresh key pair
 			var k2 sr25519.KeyPair
-			must(k2.UnmarshalBinary(kpA))
-			must(k2.SecretKey().UnmarshalBinary(skB))
+			must(k2.UnmarshalBinary(lend(kpA)))
+			must(k2.SecretKey().UnmarshalBinary(lend(skB)))
 			if b := mustMarshal(&k2); !bytes.Equal(b, kpA) {
-				e.pending(w, "KeyPair.SecretKey/hands-out-internal", "kp.SecretKey().UnmarshalBinary(B) changes the key pair (it now marshals to secret(B) || public(A)): SecretKey() returns the key pair's own object")
+				e.pending(w, "KeyPair.SecretKey/hands-out-internal", "kp.SecretKey().UnmarshalBinary(lend(B)) changes the key pair (it now marshals to secret(B) || public(A)): SecretKey() returns the key pair's own object")
 			}
 			var k3 sr25519.KeyPair
-			must(k3.UnmarshalBinary(kpA))
-			must(k3.PublicKey().UnmarshalBinary(pkB))
+			must(k3.UnmarshalBinary(lend(kpA)))
+			must(k3.PublicKey().UnmarshalBinary(lend(pkB)))
 			if b := mustMarshal(&k3); !bytes.Equal(b, kpA) {
-				e.pending(w, "KeyPair.PublicKey/hands-out-internal", "kp.PublicKey().UnmarshalBinary(B) changes the key pair (it now marshals to secret(A) || public(B)): PublicKey() returns the key pair's own object")
+				e.pending(w, "KeyPair.PublicKey/hands-out-internal", "kp.PublicKey().UnmarshalBinary(lend(B)) changes the key pair (it now marshals to secret(A) || public(B)): PublicKey() returns the key pair's own object")
 			}
 		})
 
 		// ---- MiniSecretKey.Expand*
 		add("MiniSecretKey.ExpandUniform / ExpandEd25519"+tag, func(w *mc.W, fail func(key, msg string)) {
 			var ms sr25519.MiniSecretKey
-			must(ms.UnmarshalBinary(A.mini))
+			must(ms.UnmarshalBinary(lend(A.mini)))
 			wantU, wantE := refsr.ExpandUniform(A.mini).Bytes(), refsr.ExpandEd25519(A.mini).Bytes()
 			x, y := ms.ExpandUniform(), ms.ExpandEd25519()
-			must(x.UnmarshalBinary(skB))
-			must(y.UnmarshalBinary(skB))
+			must(x.UnmarshalBinary(lend(skB)))
+			must(y.UnmarshalBinary(lend(skB)))
 			if !bytes.Equal(mustMarshal(ms.ExpandUniform()), wantU) || !bytes.Equal(mustMarshal(ms.ExpandEd25519()), wantE) || !bytes.Equal(mustMarshal(&ms), A.mini) {
 				fail("MiniSecretKey.Expand/handed-out", "overwriting an expanded key changed the mini secret key or its next expansion")
 			}
 			x, y = ms.ExpandUniform(), ms.ExpandEd25519()
-			must(ms.UnmarshalBinary(B.mini))
+			must(ms.UnmarshalBinary(lend(B.mini)))
 			if !bytes.Equal(mustMarshal(x), wantU) || !bytes.Equal(mustMarshal(y), wantE) {
 				fail("MiniSecretKey.Expand/handed-out", "an expanded key changed when the mini secret key was decoded into again")
 			}
@@ -190,19 +192,19 @@ func (e *env) handoutChecks() {
 		// ---- (*KeyPair).Sign
 		add("KeyPair.Sign"+tag, func(w *mc.W, fail func(key, msg string)) {
 			var kp sr25519.KeyPair
-			must(kp.UnmarshalBinary(kpA))
+			must(kp.UnmarshalBinary(lend(kpA)))
 			st := newSt()
 			s1, err := kp.Sign(mkReader(rdZero), st)
 			if err != nil {
 				fail("KeyPair.Sign/error", err.Error())
 				return
 			}
-			must(s1.UnmarshalBinary(sigB))
+			must(s1.UnmarshalBinary(lend(sigB)))
 			if !bytes.Equal(mustMarshal(&kp), kpA) || !bytes.Equal(signs(&kp), sigA) {
 				fail("KeyPair.Sign/handed-out", "overwriting a returned signature changed the key pair or its next signature")
 			}
 			s2, _ := kp.Sign(mkReader(rdZero), st)
-			must(kp.UnmarshalBinary(kpB))
+			must(kp.UnmarshalBinary(lend(kpB)))
 			if !bytes.Equal(mustMarshal(s2), sigA) || !A.pk.Verify(st, s2) {
 				fail("KeyPair.Sign/handed-out", "a returned signature changed when the key pair was decoded into again")
 			}
@@ -210,8 +212,8 @@ func (e *env) handoutChecks() {
 
 		// ---- contexts and transcripts: every transcript is its own object
 		add("SigningContext transcripts are independent objects"+tag, func(w *mc.W, fail func(key, msg string)) {
-			sc := sr25519.NewSigningContext(ctx)
-			t1, t2 := sc.NewTranscriptBytes(msg), sc.NewTranscriptBytes(msg)
+			sc := sr25519.NewSigningContext(lendAs("NewSigningContext", ctx))
+			t1, t2 := sc.NewTranscriptBytes(lendAs("SigningContext.NewTranscriptBytes", msg)), sc.NewTranscriptBytes(lendAs("SigningContext.NewTranscriptBytes", msg))
 			m0, m1, m2 := sr25519.VerifContextTranscript(sc), sr25519.VerifTranscript(t1), sr25519.VerifTranscript(t2)
 			if m0 != nil && m1 != nil && m2 != nil && (m0 == m1 || m1 == m2 || m0 == m2) {
 				fail("SigningContext/handed-out", "two transcripts of one context (or the context itself) share one Merlin transcript object")
@@ -225,7 +227,7 @@ func (e *env) handoutChecks() {
 				}
 			}
 			var kp sr25519.KeyPair
-			must(kp.UnmarshalBinary(kpA))
+			must(kp.UnmarshalBinary(lend(kpA)))
 			if s, err := kp.Sign(mkReader(rdZero), t2); err != nil || !bytes.Equal(mustMarshal(s), sigA) {
 				fail("SigningContext/handed-out", "the sibling transcript no longer signs to the reference signature")
 			}
@@ -234,13 +236,13 @@ func (e *env) handoutChecks() {
 		// ---- T12: nil ≡ empty, nil rand ≡ the documented default, arguments are never written to
 		add("nil / empty context and message, nil rand, arguments unchanged"+tag, func(w *mc.W, fail func(key, msg string)) {
 			var kp sr25519.KeyPair
-			must(kp.UnmarshalBinary(kpA))
+			must(kp.UnmarshalBinary(lend(kpA)))
 			wantEmpty := refsr.Sign(A.rsk, A.rpk, refsr.TranscriptBytes(nil, nil), make([]byte, 32)).Sig
 			for _, v := range []struct {
 				name     string
 				ctx, msg []byte
 			}{{"nil context, nil message", nil, nil}, {"empty context, nil message", []byte{}, nil}, {"nil context, empty message", nil, []byte{}}, {"empty, empty", []byte{}, []byte{}}} {
-				st := sr25519.NewSigningContext(v.ctx).NewTranscriptBytes(v.msg)
+				st := sr25519.NewSigningContext(lendAs("NewSigningContext", v.ctx)).NewTranscriptBytes(lendAs("SigningContext.NewTranscriptBytes", v.msg))
 				if s, err := kp.Sign(mkReader(rdZero), st); err != nil || !bytes.Equal(mustMarshal(s), wantEmpty) {
 					fail("SigningContext/nil-vs-empty", v.name+": signature differs from the reference signature for the empty context and message")
 				}
@@ -248,7 +250,7 @@ func (e *env) handoutChecks() {
 			// nil rand: crypto/rand.  Only the contract is compared: a signature is produced, it verifies, it is not the
 			// zero-entropy signature and two of them differ (each with probability 1 - 2^-250).
 			st := newSt()
-			pkObj, err := sr25519.NewPublicKeyFromBytes(pkA)
+			pkObj, err := sr25519.NewPublicKeyFromBytes(lendAs("PublicKey.UnmarshalBinary", pkA))
 			must(err)
 			pkBefore, kpBefore, stBefore := mustMarshal(pkObj), mustMarshal(&kp), strobeSnapshot(sr25519.VerifTranscript(st))
 			n1, err1 := kp.Sign(nil, st)
@@ -265,7 +267,7 @@ func (e *env) handoutChecks() {
 				fail("KeyPair.Sign/nil-rand", "Sign(nil, ...) does not use fresh entropy: equal R for two signatures, or R of the zero-entropy signature")
 			}
 			// arguments: key pair, public key, signature and transcript are inputs only
-			sigObj, _ := sr25519.NewSignatureFromBytes(sigA)
+			sigObj, _ := sr25519.NewSignatureFromBytes(lendAs("Signature.UnmarshalBinary", sigA))
 			sigBefore := mustMarshal(sigObj)
 			_ = pkObj.Verify(st, sigObj)
 			bv := sr25519.NewBatchVerifier()
@@ -291,7 +293,7 @@ func (e *env) handoutChecks() {
 			if bytes.Equal(mustMarshal(g1), mustMarshal(g2)) {
 				fail("Generate/nil-rand", "two key pairs generated with the default entropy source are equal")
 			}
-			if _, err := sr25519.NewKeyPairFromBytes(mustMarshal(g1)); err != nil {
+			if _, err := sr25519.NewKeyPairFromBytes(lendAs("KeyPair.UnmarshalBinary", mustMarshal(g1))); err != nil {
 				fail("Generate/nil-rand", "generated key pair is rejected by NewKeyPairFromBytes: "+err.Error())
 			}
 		})
